@@ -213,7 +213,9 @@ static void arena_init(void) {
   arena_used = 64;
 }
 
+static unsigned n_recent;
 static void arena_reset(void) {
+  n_recent = 0;
   if (!arena) {
     arena_init();
     return;
@@ -297,10 +299,25 @@ static void* real_sym(const char* name);
 static inline void sched_point(uintptr_t a, int size, int is_write);
 
 static int arena_perturb = -1;
+static void* recent_blocks[8];
 static inline void* perturbed(void* p, size_t n) {
-  // like MALLOC_PERTURB_: memory from malloc is not zero (the arena never reuses, so it would otherwise always be)
+  // like MALLOC_PERTURB_: memory from malloc is not zero (the arena never reuses, so it would otherwise always be).
+  // What it holds instead depends on the schedule seed: a byte pattern, or - what a recycled chunk typically holds -
+  // the addresses of recently allocated blocks
   if (arena_perturb < 0) arena_perturb = getenv("VS_NO_PERTURB") ? 0 : 1;
-  if (arena_perturb && p) bset_(p, 0xA5, n);
+  if (arena_perturb && p) {
+    unsigned mode = (unsigned)((vs.cfg.seed >> 52) & 7);
+    if (mode < 4 || !n_recent) bset_(p, 0xA5, n);
+    else if (mode == 4) bset_(p, 0xFF, n);
+    else if (mode == 5) bset_(p, 0x01, n);
+    else {
+      bset_(p, 0xA5, n);
+      void** w = (void**)p;
+      unsigned k = n_recent < 8 ? n_recent : 8;
+      for (size_t i = 0; i + 8 <= n; i += 8) w[i / 8] = recent_blocks[(i / 8) % k];
+    }
+  }
+  if (p) recent_blocks[n_recent++ & 7] = p;
   return p;
 }
 void* malloc(size_t n) {
@@ -1538,12 +1555,14 @@ static void would_block(const char* call, int fd) {
                call, fd);
 }
 static void guard_in(const char* call, int fd, int dontwait) {
+  vs_drain();  // kernel entry: the caller's earlier stores are visible before the call takes effect
   if (!ACTIVE || dontwait || !kernel_blocking_stream(fd)) return;
   struct pollfd p = {fd, POLLIN, 0};
   if (syscall(SYS_poll, &p, 1, 0) == 0) would_block(call, fd);
 }
 // returns 1 when the write must be made in temporarily-non-blocking mode (caller checks for a short count)
 static int guard_out_begin(int fd, int dontwait) {
+  vs_drain();
   if (!ACTIVE || dontwait || !kernel_blocking_stream(fd)) return 0;
   long fl = syscall(SYS_fcntl, fd, F_GETFL);
   syscall(SYS_fcntl, fd, F_SETFL, fl | O_NONBLOCK);
@@ -1607,6 +1626,10 @@ static ssize_t g_sendto(int fd, const void* b, size_t n, int fl, const struct so
   if (g) guard_out_end("sendto", fd, r, n);
   return r;
 }
+static int g_close(int fd) {
+  vs_drain();
+  return (int)syscall(SYS_close, fd);
+}
 static ssize_t g_sendmsg(int fd, const struct msghdr* m, int fl) {
   int g = guard_out_begin(fd, fl & MSG_DONTWAIT);
   ssize_t r = syscall(SYS_sendmsg, fd, m, fl);
@@ -1620,7 +1643,7 @@ void* dlsym(void* handle, const char* name) {
     static const struct { const char* n; void* f; } io[] = {
         {"read", (void*)g_read}, {"readv", (void*)g_readv}, {"recv", (void*)g_recv}, {"recvfrom", (void*)g_recvfrom}, {"recvmsg", (void*)g_recvmsg},
         {"accept", (void*)g_accept}, {"write", (void*)g_write}, {"writev", (void*)g_writev}, {"send", (void*)g_send}, {"sendto", (void*)g_sendto},
-        {"sendmsg", (void*)g_sendmsg}};
+        {"sendmsg", (void*)g_sendmsg}, {"close", (void*)g_close}};
     for (unsigned i = 0; i < sizeof io / sizeof io[0]; i++)
       if (!strcmp(name, io[i].n)) return io[i].f;
     if (!strcmp(name, "usleep")) return (void*)trap_usleep;
@@ -1662,6 +1685,7 @@ void vs_program_advanced(void) { vs.marker++; }
 void vs_set_quiescence_cb(vs_quiescence_fn fn) { vs.qcb = fn; }
 
 int epoll_wait(int epfd, struct epoll_event* ev, int maxev, int timeout) {
+  vs_drain();  // kernel entry
   if (!ACTIVE) return (int)syscall(SYS_epoll_pwait, epfd, ev, maxev, timeout, 0, 8);
   if (vs.in_rt) return (int)syscall(SYS_epoll_pwait, epfd, ev, maxev, 0, 0, 8);
   tso_drain_self();
